@@ -403,6 +403,14 @@ fn operands(k: StrKind) -> Vec<Opnd> {
     v.push(Opnd::Str(p[..3].iter().collect()));
     v.push(Opnd::Str(p[2..6].iter().collect()));
     v.push(Opnd::Str(p.iter().collect::<String>().chars().rev().take(6).collect()));
+    // strings that read like a time string (only digits and time punctuation / letters, X.680
+    // 41.? tstring): the lexer takes them for one, the alphabet must count them all the same
+    let u = universe(k);
+    for t in ["0:9", "1-2", "T0Z", "9.5"] {
+        if t.chars().all(|c| u.contains(&c) && in_base(k, c)) {
+            v.push(Opnd::Str(t.to_string()));
+        }
+    }
     let mut sorted = p.clone();
     sorted.sort();
     for i in 0..sorted.len() {
